@@ -126,6 +126,7 @@ def run(tier, seed):
                 meta.append((dt.upper(), val))
                 model.append('RESC %s %s %s' % (v, F, vlib.hexs(x)))
     a = vlib.pmap(impl.addr, jobs)
+    chk.again('setattr / getattr / delattr through a spelling', impl.addr, jobs, a, 400)
     na = vlib.pmap(impl.addr_neg, neg)
     mo = vlib.run_driver(model + negmodel)
     m1, m2 = mo[:len(model)], mo[len(model):]
